@@ -19,7 +19,7 @@ pub fn property() -> Property {
     Property {
         id: "C10",
         level: "exploration",
-        rule: "family `verdict` (Lab-M, virtual time): 1-6 create_proxy_stream calls racing on one in-memory session; for every call the scripted server's answer plan is generated: success / error text (ASCII, UTF-8, invalid UTF-8, 1 byte) / none, at 0, 1 ms, 29.999 s, 30 s, 30.001 s after the SYN, optionally duplicated (ok,err / err,ok / ok,ok), optionally preceded by answers addressed to another pending id or to an unknown id; optional session death (peer EOF / read error / Alert) at a generated instant; ServerSettings v=1/2/absent. A reference verdict function of the answer timeline says what each call must return and when. Non-trivial = an answer within 1 ms of the deadline, or duplicated/stray answers, or >= 2 racing opens, or death during the wait. Distinct = distinct serialized case. Three cases in ten start their calls without waiting for each other's SYN, over a client->server transport of 16 / 64 / unbounded capacity and with generated pre-emptions at the H1 points, so that open_stream calls overlap; which id belongs to which call is read from the destination each stream carries (port 80+i), an id carrying two destinations or a call without an id of its own is a violation. Family `front` (Lab-S, shared with C07/C16): requests through the real SOCKS5 and HTTP front-ends and the real client to a reference server that accepts, refuses (ordinary / unusual reason text), drops the connection on SYN or rejects the password: the application is told 'succeeded' / 200 only when the server accepted the stream, and a failure otherwise. One case in seven (without a death, sequential start) stalls the link 100 / 5000 / 29000 ms after the calls were made - the scripted server stops reading, no reset - while another stream of the session uploads 2 MB: the uploader sits in its write holding the session's write path; answers still arrive; every call must still complete as the model says.",
+        rule: "family `verdict` (Lab-M, virtual time): 1-6 create_proxy_stream calls racing on one in-memory session; for every call the scripted server's answer plan is generated: success / error text (ASCII, UTF-8, invalid UTF-8, 1 byte) / none, at 0, 1 ms, 29.999 s, 30 s, 30.001 s after the SYN, optionally duplicated (ok,err / err,ok / ok,ok), optionally preceded by answers addressed to another pending id or to an unknown id; optional session death (peer EOF / read error / Alert) at a generated instant; ServerSettings v=1/2/absent. A reference verdict function of the answer timeline says what each call must return and when. Non-trivial = an answer within 1 ms of the deadline, or duplicated/stray answers, or >= 2 racing opens, or death during the wait. Distinct = distinct serialized case. Three cases in ten start their calls without waiting for each other's SYN, over a client->server transport of 16 / 64 / unbounded capacity and with generated pre-emptions at the H1 points, so that open_stream calls overlap; which id belongs to which call is read from the destination each stream carries (port 80+i), an id carrying two destinations or a call without an id of its own is a violation. Family `front` (Lab-S, shared with C07/C16): requests through the real SOCKS5 and HTTP front-ends and the real client to a reference server that accepts, refuses (ordinary / unusual reason text), drops the connection on SYN or rejects the password: the application is told 'succeeded' / 200 only when the server accepted the stream, and a failure otherwise. One case in seven (without a death, sequential start) stalls the link 100 / 5000 / 29000 ms after the calls were made - the scripted server stops reading, no reset - while another stream of the session uploads 2 MB: the uploader sits in its write holding the session's write path; answers still arrive; every call must still complete as the model says. In half of the overlapping cases the peer sends FIN frames for ids that were never opened while the calls are inside open_stream (the receive loop works on the session's tables while streams are being registered); the calls must complete as the model says all the same.",
         assumptions: vec![
             "tokio paused clock / current-thread scheduler; the 30 s SYNACK deadline is the documented bound",
             "H3 verif_session_pool to place an in-memory session in the real client's pool",
@@ -69,6 +69,11 @@ pub struct VerdictCase {
     /// sits in its write holding the session's write path. Answers still arrive. (Only without a death.)
     #[serde(default)]
     pub stall_upload: Option<u16>,
+    /// overlapping calls only: while the calls are inside open_stream the peer sends FIN frames for
+    /// ids that were never opened (the receive loop has to look them up and drop them) - a second
+    /// actor working on the session's tables while streams are being registered
+    #[serde(default)]
+    pub fin_noise: bool,
 }
 
 pub struct VerdictFam;
@@ -149,10 +154,10 @@ impl Family for VerdictFam {
             (prop_oneof![Just(16usize), Just(64), Just(1usize << 20)], proptest::collection::vec(prop_oneof![3 => Just(0u8), 2 => Just(1u8), 1 => Just(2u8), 1 => Just(3u8)], 0..40)),
         );
         let stall = proptest::option::weighted(0.15, prop_oneof![Just(100u16), Just(5000), Just(29_000)]);
-        (proptest::collection::vec(plan, 1..=6), death, 0u8..3, prop_oneof![Just(9u8), Just(1), Just(255)], overlap, stall)
-            .prop_map(|(calls, death, server_v, host_len, overlap, stall)| {
+        (proptest::collection::vec(plan, 1..=6), death, 0u8..3, prop_oneof![Just(9u8), Just(1), Just(255)], overlap, stall, any::<bool>())
+            .prop_map(|(calls, death, server_v, host_len, overlap, stall, fin_noise)| {
                 let stall_upload = if death.is_none() && overlap.is_none() { stall } else { None };
-                VerdictCase { calls, death, server_v, host_len, overlap, stall_upload }
+                VerdictCase { calls, death, server_v, host_len, fin_noise: fin_noise && overlap.is_some(), overlap, stall_upload }
             })
             .boxed()
     }
@@ -223,6 +228,9 @@ impl Family for VerdictFam {
                         let r = cl.create_proxy_stream((h, 80 + i as u16)).await;
                         (Instant::now(), r.map(|(st, _s)| st.id()).map_err(|e| e.to_string()))
                     }));
+                    if case.fin_noise {
+                        let _ = w.write_all(&rc::encode(&RFrame::ctl(rc::FIN, 0x6000_0000 + i as u32))).await;
+                    }
                     for _ in 0..200 {
                         if pool.idle_count().await == 0 {
                             break;
@@ -430,6 +438,7 @@ impl Family for VerdictFam {
         out.class_if(dup, "duplicate-or-stray");
         out.class_if(case.calls.len() >= 2, "racing>=2");
         out.class_if(case.calls.len() >= 2 && case.overlap.is_some(), "overlapping-open_stream");
+        out.class_if(case.fin_noise && case.overlap.is_some(), "peer-FINs-for-unknown-ids-during-the-opens");
         out.class_if(case.stall_upload.is_some() && case.death.is_none() && case.overlap.is_none(), "link-stalled-under-an-upload");
         out.class_if(death_during, "death-during-wait");
         out.class_if(case.calls.iter().any(|p| p.answers.is_empty()), "no-answer");
